@@ -543,6 +543,30 @@ func runSizeEnc(c *core.Ctx) []core.Obligation {
 			}
 		}
 
+		// ---- FLAGFLOW clause: the flags handed to child codecs evolve under the same conditions in
+		// both passes (e.g. wantzero is spent only by a field that was actually emitted)
+		fs, fe := flagFlow(sz), flagFlow(enc)
+		if len(fs)+len(fe) > 0 {
+			var onlyS, onlyE []string
+			for k := range fs {
+				if fe[k] != fs[k] {
+					onlyS = append(onlyS, fmt.Sprintf("%s ×%d", k, fs[k]))
+				}
+			}
+			for k := range fe {
+				if fe[k] != fs[k] {
+					onlyE = append(onlyE, fmt.Sprintf("%s ×%d", k, fe[k]))
+				}
+			}
+			sort.Strings(onlyS)
+			sort.Strings(onlyE)
+			if len(onlyS)+len(onlyE) > 0 {
+				b.bad("flagflow:"+pc.name, c.FuncPos(sz), fmt.Sprintf("the flags passed to child codecs are updated under different conditions in the two passes: %s has %v, %s has %v; size and encode then disagree on which zero-valued field is emitted", shortName(sz), onlyS, shortName(enc), onlyE))
+			} else {
+				b.ok("flagflow:"+pc.name, c.FuncPos(sz), fmt.Sprintf("%d flag update(s) under identical conditions in size and encode", len(fs)))
+			}
+		}
+
 		// ---- PAYLOAD clause (scalars: wire varint / fixed)
 		if pc.wireVal == 0 || pc.wireVal == 1 || pc.wireVal == 5 {
 			payloadClause(c, b, pc, enc)
@@ -697,4 +721,122 @@ func payloadClause(c *core.Ctx, b *ob, pc *protoCodec, enc *ssa.Function) {
 			b.ok("payload:"+pc.name, c.FuncPos(enc), fmt.Sprintf("%d emission(s), each data-dependent on *p or fixed by a test of *p", n))
 		}
 	}
+}
+
+// flagFlow: each update of the flags value (flags.with/without(const)) with the canonical set of
+// branch conditions dominating it. Child results are abstracted: the size returned by a child
+// size function and the count returned by the matching child encode function are the same atom.
+func flagFlow(fn *ssa.Function) map[string]int {
+	out := map[string]int{}
+	canon := func(v ssa.Value) string {
+		s := valueSig(v, 0)
+		// dyn.codec.size(...) and dyn.codec.encode(...)#0 are both "CHILD"
+		for _, suf := range []string{".size(", ".encode("} {
+			for {
+				i := strings.Index(s, "dyn")
+				if i < 0 {
+					break
+				}
+				j := strings.Index(s[i:], suf)
+				if j < 0 {
+					break
+				}
+				// cut the call expression: up to the matching parenthesis
+				k := i + j + len(suf)
+				depth := 1
+				for k < len(s) && depth > 0 {
+					switch s[k] {
+					case '(':
+						depth++
+					case ')':
+						depth--
+					}
+					k++
+				}
+				rest := s[k:]
+				rest = strings.TrimPrefix(rest, "#0")
+				s = s[:i] + "CHILD" + rest
+			}
+		}
+		return s
+	}
+	for _, blk := range fn.Blocks {
+		for _, in := range blk.Instrs {
+			call, ok := in.(*ssa.Call)
+			if !ok {
+				continue
+			}
+			n := calleeName(call.Common())
+			switch {
+			case strings.HasSuffix(n, "proto.flags).without"):
+				n = "without"
+			case strings.HasSuffix(n, "proto.flags).with"):
+				n = "with"
+			default:
+				continue
+			}
+			if len(call.Common().Args) != 2 {
+				continue
+			}
+			k, isK := constInt(call.Common().Args[1])
+			if !isK {
+				continue
+			}
+			// only updates that are carried to later iterations / children: result flows into a φ or a later call
+			carried := false
+			for _, ref := range *call.Referrers() {
+				if _, ok := ref.(*ssa.Phi); ok {
+					carried = true
+				}
+			}
+			if !carried {
+				continue
+			}
+			var conds []string
+			for _, e := range dominatingEdges(blk) {
+				// loop conditions are the same in both passes by construction; keep data conditions only
+				if isLoopCond(e.ifi.Cond) {
+					continue
+				}
+				// the encoder additionally tests buffer space and emit errors: not part of the flag flow
+				if bp := bufParam(fn); bp != nil && dependsOn(e.ifi.Cond, func(v ssa.Value) bool {
+					if call, ok := v.(*ssa.Call); ok {
+						if bi, ok := call.Common().Value.(*ssa.Builtin); ok && bi.Name() == "len" && call.Common().Args[0] == ssa.Value(bp) {
+							return true
+						}
+					}
+					return false
+				}) {
+					continue
+				}
+				if bo, ok := e.ifi.Cond.(*ssa.BinOp); ok && (isErrorType(bo.X.Type()) || isErrorType(bo.Y.Type())) {
+					continue
+				}
+				cs := canon(e.ifi.Cond)
+				if e.succ == 1 {
+					cs = "!" + cs
+				}
+				conds = append(conds, cs)
+			}
+			sort.Strings(conds)
+			out[fmt.Sprintf("%s(%d) under {%s}", n, k, strings.Join(conds, " && "))]++
+		}
+	}
+	return out
+}
+
+// isLoopCond: the condition compares a range/loop index (a φ or φ+1) with a bound.
+func isLoopCond(cond ssa.Value) bool {
+	bo, ok := cond.(*ssa.BinOp)
+	if !ok {
+		return false
+	}
+	isIdx := func(v ssa.Value) bool {
+		if add, ok := v.(*ssa.BinOp); ok && add.Op == token.ADD {
+			v = add.X
+		}
+		phi, ok := v.(*ssa.Phi)
+		return ok && (strings.Contains(phi.Comment, "range") || phi.Comment == "i")
+	}
+	return isIdx(bo.X) || isIdx(bo.Y)
 }
